@@ -615,6 +615,14 @@ def _r1(ctx):
         if b_[0] == "call" and b_[1][0] == "global" and b_[1][1] in ("reversed", "sorted", "filter", "list", "tuple", "set", "frozenset", "enumerate", "zip", "iter"):
             return any(opaque(x) for x in b_[2])          # a visible re-ordering / selection / copy of its arguments
         return True
+    def unslice(v_):
+        """`L[:]` (a copy of the whole list) read as L, wherever it stands"""
+        if not isinstance(v_, tuple) or not v_:
+            return v_
+        if v_[0] == "sub" and len(v_) == 3 and isinstance(v_[2], tuple) and v_[2] and v_[2][0] == "slice" and all(x in (None, ("const", None)) for x in v_[2][1:]):
+            return unslice(v_[1])
+        return tuple(unslice(x) if isinstance(x, tuple) else x for x in v_)
+    it, elt0 = unslice(it), unslice(elt0)
     b = match(("call", ("global", "enumerate"), (V("z"),), ()), it)
     if not b and strip_transparent(simp(it))[0] == "call" and strip_transparent(simp(it))[1] == ("global", "zip") and not strip_transparent(simp(it))[3]:
         # no counter at the top: the statements are zipped from lists that were numbered when they were built
@@ -720,7 +728,7 @@ def _r1(ctx):
     for lp_ in fl.all_loops.values():
         allb.update(lp_.bvals)
     for _ in range(6):
-        e2 = simp(resolve(subst(elt, allb)))
+        e2 = simp(resolve(unslice(subst(elt, allb))))
         if e2 == elt:
             break
         elt = e2
@@ -811,8 +819,13 @@ def _r1(ctx):
         probs, unread = [], []
 
         def plain(x):
-            """built from constants, parameters, counters and attributes of reactions only: a value the rule reads completely"""
-            return all(not (isinstance(y, tuple) and y and y[0] in ("call", "meth", "unknown", "acc", "carried", "after", "sub", "item")) for y in walk(x))
+            """built from constants, parameters, counters and attributes of reactions only, all traced to THIS position: a value the rule
+            reads completely (an element of another loop / a comprehension variable that was not composed to this position is the
+            rule's failure to follow the construction, not a wrong piece)"""
+            return all(not (isinstance(y, tuple) and y and y[0] in ("call", "meth", "unknown", "acc", "carried", "after", "sub", "item")) for y in walk(x)) and not stray(x)
+
+        def stray(x):
+            return any(isinstance(y, tuple) and len(y) == 3 and ((y[0] in ("elem", "idx", "key", "val") and y[2] != L) or y[0] == "bv") for y in walk(x))
         if hv[g["s"]] != SYM:
             (probs if hv[g["s"]][0] in ("const", "param") else unread).append(f"array symbol is {show(hv[g['s']])}")
         if hv[g["i"]] != idx:
@@ -834,7 +847,9 @@ def _r1(ctx):
             # another coefficient; not understood: a value in which no rateexpr() can be seen at all
             seen_rate = any(isinstance(y, tuple) and len(y) == 5 and y[0] == "meth" and y[2] == "rateexpr" for x in lv for y in walk(x)) \
                 or any(y == SYM for x in lv for y in walk(x))
-            (probs if seen_rate else unread).append(f"rate expression is {show(e)[:80]}, not rateexpr() of the same reaction")
+            # (a bare rateexpr() of an element the rule did not trace to this position is the rule's failure, not a wrong piece)
+            bare_stray = all((isinstance(x, tuple) and len(x) == 5 and x[0] == "meth" and x[2] == "rateexpr" and (x[1] == r or (x[1][0] in ("elem", "bv") and stray(x[1])))) for x in lv)
+            (probs if seen_rate and not bare_stray else unread).append(f"rate expression is {show(e)[:80]}, not rateexpr() of the same reaction")
         if unread and not probs:
             ctx.unrec("R1", key, (FILE, rets[0].line), "cannot read a piece of the generated statement: " + "; ".join(unread)[:200])
             continue
